@@ -115,6 +115,14 @@ def r16_1(ctx, pf, loop, info):
         if not isinstance(d, ast.Dict):
             raise AnalysisError("R16.1", pf.where(c), f"value validation through `{norm(sub)}`: table is not a constant dict literal")
         tables[tname] = (fn, d, c)
+    # split idiom: TAG:TYPE:VALUE split on ':' must be bounded to two splits, because ':' is in the value language
+    core, _, _ = relang.strip_anchors(tag_items)
+    colon_in_value = core[-1][0] == "rep" and core[-1][3][0][0] == "char" and ord(":") in core[-1][3][0][1]
+    for c in info.get("splits", []):
+        n += 1
+        bound = const_value(c.args[1], None) if len(c.args) > 1 else next((const_value(k.value) for k in c.keywords if k.arg == "maxsplit"), None)
+        ok = (not colon_in_value) or c.func.attr == "partition" and False or (c.func.attr == "split" and bound == 2)
+        ctx.check(ok, "R16.1", pf.where(c), "an optional field is split on ':' with maxsplit=2: ':' belongs to the value language (e.g. `pa:Z:chr1:100-200`), an unbounded split truncates the value", key_of(pf, f"field-split:{norm(c)}"), call=norm(c))
     for T in sorted(types):
         of = oracle_field(tag_items, types, T)
         for fn, pat, call in info["patterns"]:
